@@ -140,8 +140,8 @@ Section Stages.
     rewrite pparam_stage_none.
     destruct (flow_stage_alloc (d_flows d) [] false []) as [[l ->] | ->]; [|congruence].
     destruct (procdef_stage_alloc (d_procdefs d)) as [-> | ->]; [|congruence].
-    pose proof (load_no_fuel (CF l (quota_defined (d_quotas d))) true) as H.
-    unfold load. destruct (load_with true true (CF l (quota_defined (d_quotas d)))); cbn; congruence.
+    pose proof (load_no_fuel (CF l (quota_defined parse_q true (d_quotas d))) true) as H.
+    unfold load. destruct (load_with true true (CF l (quota_defined parse_q true (d_quotas d)))); cbn; congruence.
   Qed.
 
   (* ---- a flow file without a document / that cannot be decoded *)
@@ -289,7 +289,7 @@ Section Stages.
 
   Lemma accept_is_load : forall d fl,
     loadf d = OAccept fl ->
-    exists l, load (CF l (quota_defined (d_quotas d))) = Accept fl
+    exists l, load (CF l (quota_defined parse_q true (d_quotas d))) = Accept fl
               /\ forall fc, In fc l -> from_file (d_flows d) fc.
   Proof.
     intros d fl. unfold load_files, load_dir.
@@ -300,7 +300,7 @@ Section Stages.
         [discriminate F|inversion F; subst o; intros E0; discriminate E0]. }
     destruct (procdef_stage_alloc (d_procdefs d)) as [-> | ->]; [|intros E0; discriminate E0].
     intros E. exists l. split.
-    - destruct (load (CF l (quota_defined (d_quotas d)))); cbn in E; congruence.
+    - destruct (load (CF l (quota_defined parse_q true (d_quotas d)))); cbn in E; congruence.
     - eapply flow_stage_flows; [| |exact F]; [auto|intros fc []].
   Qed.
 
@@ -389,14 +389,81 @@ Section Stages.
   Lemma procdef_stage_rendered : forall ds, dstage (map Rendered ds) = None.
   Proof. induction ds as [|x r IH]; cbn [map procdef_stage]; [reflexivity|exact IH]. Qed.
 
+  (* ---- [quota_defined] is a function of the DECODED documents (extension 4) *)
+
+  Notation usable := (fun q : qdoc => qd_quotas q && qd_valid q).
+
+  Lemma usable_quota_rendered : forall b q, usable_quota parse_q b (Rendered q) = usable q.
+  Proof. intros b q. unfold usable_quota. rewrite unmarshal_rendered. reflexivity. Qed.
+
+  Lemma quota_defined_rendered : forall b qs,
+    quota_defined parse_q b (map Rendered qs) = existsb usable qs.
+  Proof.
+    intros b qs. unfold quota_defined. induction qs as [|q r IH]; cbn [map existsb]; [reflexivity|].
+    rewrite usable_quota_rendered, IH. reflexivity.
+  Qed.
+
+  Lemma usable_quota_decoded : forall f,
+    usable_quota parse_q true f = true <->
+    exists q, decode_file qdoc empty_qdoc parse_q f = Doc q /\ usable q = true.
+  Proof.
+    intros f. unfold usable_quota. split.
+    - destruct (unmarshal qdoc empty_qdoc parse_q true f) as [| |q] eqn:E; try discriminate.
+      intros U. destruct (unmarshal_obj_doc _ _ _ _ _ E) as [D | [_ Ee]].
+      + exists q. split; assumption.
+      + subst q. discriminate U.
+    - intros [q [D U]]. unfold unmarshal. rewrite D. cbn [unmarshal_post]. exact U.
+  Qed.
+
+  Lemma quota_defined_decoded : forall qs,
+    quota_defined parse_q true qs = true <->
+    exists f q, In f qs /\ decode_file qdoc empty_qdoc parse_q f = Doc q /\ usable q = true.
+  Proof.
+    intros qs. unfold quota_defined. rewrite existsb_exists. split.
+    - intros [f [Hin U]]. apply usable_quota_decoded in U. destruct U as [q [D U]].
+      exists f, q. auto.
+    - intros [f [q [Hin [D U]]]]. exists f. split; [exact Hin|].
+      apply usable_quota_decoded. exists q. auto.
+  Qed.
+
+  (* once the quota loader has read every file, each of them is usable: a quota
+     is defined exactly when there is a quota file - rendered or bytes alike *)
+  Lemma quota_stage_passed_all_usable : forall qs,
+    qstage qs = None -> forallb (usable_quota parse_q true) qs = true.
+  Proof.
+    induction qs as [|f r IH]; cbn [quota_stage forallb]; [reflexivity|].
+    unfold usable_quota at 1.
+    destruct (unmarshal qdoc empty_qdoc parse_q true f) as [| |q]; try discriminate.
+    destruct (qd_quotas q && qd_valid q); [cbn [andb]; exact IH|discriminate].
+  Qed.
+
+  Lemma quota_stage_passed_defined : forall qs,
+    qstage qs = None ->
+    quota_defined parse_q true qs = match qs with [] => false | _ :: _ => true end.
+  Proof.
+    intros [|f r] H; [reflexivity|].
+    apply quota_stage_passed_all_usable in H. cbn [forallb] in H.
+    apply andb_true_iff in H. destruct H as [H _].
+    unfold quota_defined. cbn [existsb]. rewrite H. reflexivity.
+  Qed.
+
+  Lemma accept_quota_defined : forall d fl,
+    loadf d = OAccept fl ->
+    quota_defined parse_q true (d_quotas d) = match d_quotas d with [] => false | _ :: _ => true end.
+  Proof.
+    intros d fl. unfold load_files, load_dir.
+    destruct (quota_stage_alloc (d_quotas d)) as [E | E]; rewrite E; [|intros E0; discriminate E0].
+    intros _. apply quota_stage_passed_defined. exact E.
+  Qed.
+
   Lemma load_files_rendered : forall qs ps l ds,
     forallb (fun q => qd_quotas q && qd_valid q) qs = true ->
     loadf (DIR (map Rendered qs) ps (map Rendered l) (map Rendered ds))
-    = of_verdict (load (CF l (quota_defined (map Rendered qs)))).
+    = of_verdict (load (CF l (existsb (fun q => qd_quotas q && qd_valid q) qs))).
   Proof.
     intros qs ps l ds Hq. unfold load_files, load_dir. cbn [d_quotas d_pparams d_flows d_procdefs].
-    rewrite (quota_stage_rendered _ Hq), pparam_stage_none.
-    set (q := quota_defined (map Rendered qs)).
+    rewrite (quota_stage_rendered _ Hq), pparam_stage_none, quota_defined_rendered.
+    set (q := existsb (fun q => qd_quotas q && qd_valid q) qs).
     destruct (forallb flow_struct_ok l) eqn:Hok.
     - rewrite (flow_stage_rendered_ok _ _ _ Hok), dn_nil. cbn [rev app].
       destruct (nodupZ (map fc_name l)) eqn:Hnd.
@@ -440,8 +507,8 @@ Section Stages.
     rewrite pparam_stage_none.
     destruct (flow_stage_startup_alloc (d_flows d) [] false []) as [[l ->] | ->]; [|congruence].
     destruct (procdef_stage_alloc (d_procdefs d)) as [-> | ->]; [|congruence].
-    pose proof (load_no_fuel (CF l (quota_defined (d_quotas d))) true) as H.
-    unfold load. destruct (load_with true true (CF l (quota_defined (d_quotas d)))); cbn; congruence.
+    pose proof (load_no_fuel (CF l (quota_defined parse_q true (d_quotas d))) true) as H.
+    unfold load. destruct (load_with true true (CF l (quota_defined parse_q true (d_quotas d)))); cbn; congruence.
   Qed.
 
   (* where the validation-mode stage hands flows on, the start-up stage hands on the same *)
@@ -492,7 +559,7 @@ Section Stages.
 
   Lemma startup_accept_is_load : forall d fl,
     loads d = OAccept fl ->
-    exists l, load (CF l (quota_defined (d_quotas d))) = Accept fl
+    exists l, load (CF l (quota_defined parse_q true (d_quotas d))) = Accept fl
               /\ forall fc, In fc l -> from_file (d_flows d) fc.
   Proof.
     intros d fl. unfold load_files_startup, load_dir_startup.
@@ -503,7 +570,7 @@ Section Stages.
         [discriminate F|inversion F; subst o; intros E0; discriminate E0]. }
     destruct (procdef_stage_alloc (d_procdefs d)) as [-> | ->]; [|intros E0; discriminate E0].
     intros E. exists l. split.
-    - destruct (load (CF l (quota_defined (d_quotas d)))); cbn in E; congruence.
+    - destruct (load (CF l (quota_defined parse_q true (d_quotas d)))); cbn in E; congruence.
     - eapply flow_stage_startup_flows; [| |exact F]; [auto|intros fc []].
   Qed.
 End Stages.
